@@ -3,6 +3,7 @@ package main
 import (
 	"fmt"
 	"io"
+	"net"
 	nethttp "net/http"
 	"path/filepath"
 	"strings"
@@ -16,9 +17,22 @@ import (
 // or an explicit 503), and the process is alive and healthy afterwards. Nothing here depends on time: the verdict is
 // over the replies and the process state.
 func runOverload(c *runCtx) {
-	srv := NewServer(filepath.Join(c.scratch, "overload"), "--api-size", "1", "--system-coroutine-max-size", "2")
+	runOverloadWith(c, "api queue of 1", "--api-size", "1", "--system-coroutine-max-size", "2")
+	// the queues behind the kernel: a completion queue of 2 and a store queue of 1, store batches of 1
+	runOverloadWith(c, "aio queues of 1-2", "--aio-size", "2", "--aio-store-sqlite-size", "1", "--aio-store-sqlite-batch-size", "1")
+}
+
+func runOverloadWith(c *runCtx, what string, flags ...string) {
+	srv := NewServer(filepath.Join(c.scratch, "overload"), flags...)
 	srv.FreshDB()
 	if err := srv.Start(); err != nil {
+		if strings.Contains(err.Error(), "did not answer") && srv.Alive() {
+			// the process runs and listens but its kernel answers nothing, not even the first health read
+			c.rep.Evaluations++
+			c.violate("overload:never-answers", fmt.Sprintf("with %s the server process runs but never answered its first request (%v) :: %s", what, err, srv.LogTail()), nil)
+			srv.Kill()
+			return
+		}
 		fmt.Println("CHECK-BROKEN cannot start the server:", err)
 		panic(err)
 	}
@@ -66,16 +80,14 @@ func runOverload(c *runCtx) {
 	c.rep.Events += int(replies.Load())
 	c.rep.HitN("overload.replies", int(replies.Load()))
 	c.rep.HitN("overload.replies-503", int(shed.Load()))
+	c.rep.HitN("overload.replies-other-5xx", int(other.Load()))
 	alive := srv.Alive()
 	if !alive {
-		c.violate("overload:process-exit", fmt.Sprintf("with --api-size 1 and 48 concurrent clients the server process exited (%s) after %d replies (%d of them 503) :: %s", srv.PanicSite(), replies.Load(), shed.Load(), srv.LogTail()), nil)
+		c.violate("overload:process-exit", fmt.Sprintf("with "+what+" and 48 concurrent clients the server process exited (%s) after %d replies (%d of them 503) :: %s", srv.PanicSite(), replies.Load(), shed.Load(), srv.LogTail()), nil)
 		return
 	}
 	if dropped.Load() > 0 {
-		c.violate("overload:reply-dropped", fmt.Sprintf("with --api-size 1 and 48 concurrent clients %d requests got no reply at all (e.g. %v) although the process is alive; %d were answered, %d of them with 503", dropped.Load(), example.Load(), replies.Load(), shed.Load()), nil)
-	}
-	if other.Load() > 0 {
-		c.violate("overload:unexpected-status", fmt.Sprintf("%d replies under overload were neither a result nor a 503 (e.g. %v)", other.Load(), example.Load()), nil)
+		c.violate("overload:reply-dropped", fmt.Sprintf("with "+what+" and 48 concurrent clients %d requests got no reply at all (e.g. %v) although the process is alive; %d were answered, %d of them with 503", dropped.Load(), example.Load(), replies.Load(), shed.Load()), nil)
 	}
 	ok, why := srv.Healthy()
 	for try := 0; !ok && srv.Alive() && try < 3; try++ {
@@ -176,4 +188,62 @@ func runStoreFault(c *runCtx) {
 		c.violate("storefault:sigterm-no-exit", "after a failed store commit the server does not stop within 25 s of SIGTERM :: "+srv.LogTail(), nil)
 		srv.Kill()
 	}
+}
+
+// runSlowConsumer (C13): a poll listener that connects and then never reads (a stalled worker), while tasks keep being
+// dispatched to it; the connection buffer is small (2), so it overflows, hand-offs fail and are retried. Later the
+// listener hangs up. Nothing a listener does or fails to do may end the server process.
+func runSlowConsumer(c *runCtx) {
+	srv := NewServer(filepath.Join(c.scratch, "slowconsumer"), "--aio-sender-plugin-poll-buffer-size", "2")
+	srv.FreshDB()
+	if err := srv.Start(); err != nil {
+		fmt.Println("CHECK-BROKEN cannot start the server:", err)
+		panic(err)
+	}
+	defer srv.Close()
+	cn, err := net.DialTimeout("tcp", srv.pollAddr, 3*time.Second)
+	if err != nil {
+		c.rep.Inconclusive++
+		return
+	}
+	if tc, ok := cn.(*net.TCPConn); ok {
+		_ = tc.SetReadBuffer(2048) // keep the receive window small: the server's writes stall soon
+	}
+	_, _ = cn.Write([]byte("GET /stall/w HTTP/1.1\r\nHost: x\r\nAccept: text/event-stream\r\n\r\n"))
+	time.Sleep(300 * time.Millisecond)
+	big := strings.Repeat("0123456789abcdef", 2048) // 32 KiB of parameter per promise
+	far := time.Now().UnixMilli() + 3600_000
+	for i := 0; i < 60; i++ {
+		srv.JSON("POST", "/promises", nil, map[string]any{"id": fmt.Sprintf("stall.%d", i), "timeout": far, "param": map[string]any{"data": []byte(big)}, "tags": map[string]string{"resonate:invoke": "poll://stall/w"}})
+		if !srv.Alive() {
+			break
+		}
+	}
+	c.rep.Evaluations++
+	c.rep.Events += 60
+	for t := 0; t < 40 && srv.Alive(); t++ {
+		time.Sleep(100 * time.Millisecond) // dispatch cycles and retries against the stalled listener
+	}
+	if !srv.Alive() {
+		c.violate("slow-consumer:process-exit", fmt.Sprintf("a poll listener that stopped reading (connection buffer 2, 60 tasks dispatched to it) ended the server process (%s) :: %s", srv.PanicSite(), srv.LogTail()), nil)
+		cn.Close()
+		return
+	}
+	cn.Close() // the listener hangs up
+	for t := 0; t < 15 && srv.Alive(); t++ {
+		time.Sleep(100 * time.Millisecond)
+	}
+	if !srv.Alive() {
+		c.violate("slow-consumer:process-exit", fmt.Sprintf("a stalled poll listener that then hung up ended the server process (%s) :: %s", srv.PanicSite(), srv.LogTail()), nil)
+		return
+	}
+	ok, why := srv.Healthy()
+	for try := 0; !ok && srv.Alive() && try < 3; try++ {
+		time.Sleep(time.Second)
+		ok, why = srv.Healthy()
+	}
+	if !ok {
+		c.violate("slow-consumer:unhealthy-afterwards", "after a stalled poll listener the health probe fails: "+why, nil)
+	}
+	c.rep.Nontriv("slow-consumer")
 }
